@@ -12,4 +12,5 @@ for p in "$@"; do
   ./check "$p" --tier quick 2>&1 | grep -E "^(OK|VIOLATION|KNOWN)" | cut -c1-220
 done
 git -C /repo checkout -- . ; git -C /repo clean -fdq
+./check prepare >/dev/null 2>&1
 find /repo -name '*.orig' -o -name '*.rej' | xargs -r rm -f
